@@ -268,7 +268,9 @@ def execute(scn: dict) -> dict:
     step_kind = scn["plan"]["steps"][0]["kind"]
     # an optimizer step must stop with TOO_FEW_REALIZATIONS at the first deficient evaluation
     # (the statement says "an optimization stops": the evaluator step's code is C14's business)
-    if step_kind == "optimizer" and first_deficient_call is not None and ctx.exits and ctx.exits[0][0] == "ret":
+    # (not in the kept-evaluator stratum: there no optimization runs - the user asks the evaluator again as they please)
+    if scn.get("entry") != "evaluator_object_sequence" and step_kind == "optimizer" and first_deficient_call is not None \
+            and ctx.exits and ctx.exits[0][0] == "ret":
         code = ctx.exits[0][2]
         if code != int(OptimizerExitCode.TOO_FEW_REALIZATIONS):
             viol.append({"clause": "exit-code-not-too-few", "sig": {"step": step_kind},
